@@ -19,7 +19,7 @@ static const op_t ALPHA[] = {
 	{ 'S', S, "a", "x", 0, 0 }, { 'S', S, "a", "", 0, 1 }, { 'S', S, "b", "y", 0, 0 },
 	{ 'S', B, "a", NULL, 1, 0 }, { 'S', B, "a", NULL, 0, 1 }, { 'S', B, "b", NULL, 1, 1 },
 	{ 'S', J, "a", "{\"k\":[1]}", 0, 0 }, { 'S', J, "a", "[1,2]", 0, 1 }, { 'S', J, "b", "{}", 0, 0 },
-	{ 'S', J, NULL, "{\"a\":10,\"c\":\"z\"}", 0, 0 }, { 'S', J, NULL, "{\"a\":10,\"c\":\"z\"}", 0, 1 }, { 'S', J, "", "{\"b\":null,\"a\":{\"n\":1}}", 0, 1 },
+	{ 'S', J, NULL, "{\"a\":10,\"c\":\"z\"}", 0, 0 }, { 'S', J, NULL, "{\"a\":10,\"c\":\"z\"}", 0, 1 }, { 'S', J, "", "{\"b\":null,\"a\":{\"n\":1},\"\":7}", 0, 1 },
 	{ 'S', J, "a", "{", 0, 1 }, { 'S', J, NULL, "5", 0, 1 }, { 'S', J, "a", "{\"x\":1,\"x\":2}", 0, 1 }, { 'S', J, NULL, "[1]", 0, 1 },
 	{ 'S', I, "", NULL, 7, 1 }, { 'S', I, NULL, NULL, 7, 1 }, { 'S', S, "", "v", 0, 1 }, { 'S', S, "a", NULL, 0, 1 }, { 'S', B, NULL, NULL, 1, 1 },
 	{ 'G', I, "a", 0, 0, 0 }, { 'G', S, "a", 0, 0, 0 }, { 'G', B, "a", 0, 0, 0 }, { 'G', J, "a", 0, 0, 0 }, { 'G', J, NULL, 0, 0, 0 },
@@ -114,7 +114,7 @@ static void random_op(op_t *op)
 	static const char *JS[] = { "{\"a\":1}", "{\"b\":{\"c\":[1,2,{\"d\":null}]},\"a\":\"s\"}", "[]", "[1,\"two\",3.5]", "{}", "{\"r\":1.5,\"t\":true,\"n\":null}",
 		"{\"a\":9223372036854775807,\"b\":-9223372036854775808}", "{", "", "nul", "5", "\"s\"", "{\"x\":1,\"x\":2}", "{\"a\":{\"a\":{\"a\":{}}}}",
 		"{\"exp\":1,\"alg\":\"none\"}", "[[[[[[]]]]]]", "{\"a\":1} x", " {\"c\":2} ",
-		"{\"r\":1.0,\"i\":3,\"t\":false,\"n\":null}", "{\"r\":-0.0,\"n\":[],\"i\":\"3\"}", "{\"t\":1,\"r\":1e2,\"i\":0}" };
+		"{\"r\":1.0,\"i\":3,\"t\":false,\"n\":null}", "{\"r\":-0.0,\"n\":[],\"i\":\"3\"}", "{\"t\":1,\"r\":1e2,\"i\":0}", "{\"\":\"empty-name\",\"a\":{\"\":[]}}" };
 	static const long INTS[] = { 0, 1, -1, INT64_MAX, INT64_MIN, 2147483648L, 1700000000L };
 	static const char *STRS[] = { "", "x", "a longer string value", "\xc3\xa9\xf0\x9f\x98\x80", "with \"quotes\" and \\ backslash", "line\nbreak\ttab", NULL, bigstr };
 	unsigned k = (unsigned)vh_below(&rng, 10);
@@ -129,7 +129,7 @@ static void random_op(op_t *op)
 		case I: op->ival = vh_below(&rng, 2) ? INTS[vh_below(&rng, 7)] : (long)vh_rand(&rng); break;
 		case S: op->sval = STRS[vh_below(&rng, 8)]; break;
 		case B: { static const long BV[] = { 0, 1, 0, 1, 2, -1, 256, 65536, INT32_MIN }; op->ival = BV[vh_below(&rng, 9)]; } break;
-		default: op->sval = JS[vh_below(&rng, 21)]; break;
+		default: op->sval = JS[vh_below(&rng, 22)]; break;
 		}
 	} else if (k < 8) {
 		op->kind = 'G';
